@@ -5,6 +5,7 @@ CONSTANTS
   NoShadow = FALSE
   NoPreCheck = FALSE
   XParU = {}
+  ModEnds = "off"
   ShallowSub = FALSE
   IgnoreNs = FALSE
   ModSharedPath = FALSE
